@@ -21,7 +21,8 @@ def eval_family(ctx, family, strides, shards=None, cats=EVAL_CATS,
                       extra_cfg=["VIEW View"], workers=C.NCPU, timeout=3000)
     consts["Stride3"] = stride3
     files = C.generate(ctx, module, family, consts, shards or (8 if quick else 16), stride=stride, timeout=3000)
-    C.replay(ctx, files, set(cats), oneshot=oneshot, canary_every=canary_every)
+    C.replay(ctx, files, set(cats), oneshot=oneshot, canary_every=canary_every,
+             extra=["-doc-canary-every", "7919"] if "docmod" in cats else [])
     ctx.bounds[family] = {"stride_levels_1_2": stride, "stride_level_3": stride3, "exhaustive": stride == 1 and stride3 == 1}
 
 
@@ -161,6 +162,52 @@ def c17(ctx):
     ctx.exhaustive = True
 
 
+def mc_api(ctx, dev="{}", negative=False, name=None):
+    C.model_check(ctx, "MC_Api", {"Dev": dev, "AstPool": "<- MCAsts", "Docs0": "<- MCDocs", "Texts": "<- MCTexts", "MaxCalls": 4},
+                  invariants=["HistoryIndependent", "DocsIntact", "HandleIntact"], properties=["DocsReadOnly"], spec="Spec",
+                  name=name or "MC_Api", workers=C.NCPU, extra_cfg=["VIEW View"], negative=negative, timeout=1200)
+
+
+def c13(ctx):
+    ctx.rule = ("histories: every sequence of 1..4 (quick; thorough 1..5) Search calls of one compiled expression over 5 documents, for 7 "
+                "expressions (sort_by on a literal and on the document, failing searches, object wildcard), each call compared with the "
+                "specification's outcome set, with a freshly compiled expression and with the one-shot Search; every sequence of 1..4 Parse "
+                "calls of one reused Parser over 9 texts (valid, ungrammatical, unlexable), each compared with a fresh Parser (error/no error "
+                "and reflect.DeepEqual of the AST) and with the specification's verdict; non-trivial: >= 2 consecutive calls on the shared "
+                "object; plus the replay families with the one-shot Search enabled")
+    quick = ctx.tier == Q
+    mc_api(ctx)
+    mc_api(ctx, dev='{"InPlaceSortBy"}', negative=True, name="MC_Api_neg_InPlaceSortBy")
+    mc_api(ctx, dev='{"NoIndexReset"}', negative=True, name="MC_Api_neg_NoIndexReset")
+    files = C.generate(ctx, "Gen_Api", "api", {"MaxLenH": 4 if quick else 5}, 8 if quick else 16, stride=1 if quick else 1, name="Gen_Api",
+                       family_constant=False, timeout=3000)
+    C.run_tool(ctx, "history", files, {"history-outcome", "history-fresh", "history-oneshot", "history-differs", "history-compile",
+                                       "parser-reuse", "parser-expect"}, canary_every=997)
+    eval_family(ctx, "C09n", {Q: (2, 1), T: (1, 1)}, cats=("outcome", "panic", "oneshot"), mc=False, oneshot=True)
+    eval_family(ctx, "C02", {Q: (29, 1), T: (3, 1)}, cats=("outcome", "panic", "oneshot"), mc=False, oneshot=True)
+    ctx.exhaustive = True
+
+
+def c06(ctx):
+    ctx.rule = ("every replayed Search compares a deep snapshot of the document taken before the call with the document after the call; "
+                "family C06: every built-in applied directly to parts of the document (18 one-argument functions, sort_by/max_by/min_by/map x 7 "
+                "key expressions, merge, contains, join, not_null, flatten, slices, projections) alone and wrapped in 12 contexts (pipe, "
+                "projection RHS, multi-select, expression-reference body, filter condition, ||, then reverse / sort_by / sort / flatten / merge) "
+                "x documents with unsorted arrays, non-palindromes, overlapping objects and mixed-type arrays (error paths); plus the C09n, "
+                "C10d, C02, C11 and C08 families; non-trivial: the call reads at least one array or object of the document (allowed set not "
+                "{ok null}); distinct by (source text, document)")
+    mc_api(ctx)
+    mc_api(ctx, dev='{"InPlaceSortBy"}', negative=True, name="MC_Api_neg_InPlaceSortBy")
+    cats = ("docmod",)
+    eval_family(ctx, "C06", {Q: (3, 1), T: (1, 1)}, cats=cats + ("outcome", "panic"))
+    eval_family(ctx, "C09n", {Q: (3, 1), T: (1, 1)}, cats=cats, mc=False)
+    eval_family(ctx, "C10d", {Q: (2, 1), T: (1, 1)}, cats=cats, mc=False)
+    eval_family(ctx, "C11", {Q: (2, 9), T: (1, 1)}, cats=cats, mc=False)
+    eval_family(ctx, "C02", {Q: (31, 1), T: (2, 1)}, cats=cats, mc=False)
+    eval_family(ctx, "C08", {Q: (23, 1), T: (2, 1)}, cats=cats, mc=False)
+    ctx.exhaustive = False
+
+
 def c08(ctx):
     ctx.rule = ("family C08: every (start, stop, step) over {absent} u [-L-2, L+2] u {+-(2^31-1), +-2^31, +-2^62, +-(2^63-1), -2^63} "
                 "(L = 4 quick / 6 thorough) x 3 spellings of the base ([..], a[..], @[..]) x arrays of length 0..L of distinct elements, "
@@ -223,5 +270,5 @@ def c16(ctx):
 
 
 PIPELINES = {
-    "C01": c01, "C02": c02, "C03": c03, "C04": c04, "C14": c14, "C17": c17, "C07": c07, "C08": c08, "C09": c09, "C10": c10, "C11": c11, "C16": c16,
+    "C01": c01, "C02": c02, "C03": c03, "C04": c04, "C06": c06, "C13": c13, "C14": c14, "C17": c17, "C07": c07, "C08": c08, "C09": c09, "C10": c10, "C11": c11, "C16": c16,
 }
